@@ -465,3 +465,83 @@ Proof.
     destruct (pad_facts number (N.of_nat (S i)) Hs Hn ltac:(lia)) as [L2 [D2 V2]].
     apply lex_digits; auto; [lia|]. rewrite V1, V2. lia.
 Qed.
+
+(* ------------------------------------------------------------ the open finding: CR before LF
+   The tool reads lines with strip_cr = true (regenerated flag).  Byte-exact lines hold
+   for inputs without a CR directly before a LF; they fail for "a\r\n". *)
+Fixpoint no_crlf (l : list Z) : bool :=
+  match l with
+  | [] => true
+  | b :: r => match r with
+              | c :: _ => negb ((b =? 13)%Z && (c =? 10)%Z) && no_crlf r
+              | [] => true
+              end
+  end.
+
+Lemma no_crlf_tail b r : no_crlf (b :: r) = true -> no_crlf r = true.
+Proof.
+  intros H. destruct r as [|c r]; [reflexivity|].
+  change (negb ((b =? 13)%Z && (c =? 10)%Z) && no_crlf (c :: r) = true) in H.
+  apply andb_true_iff in H. tauto.
+Qed.
+
+Lemma no_crlf_head b c r : no_crlf (b :: c :: r) = true -> ~ (b = 13%Z /\ c = 10%Z).
+Proof.
+  intros H. change (negb ((b =? 13)%Z && (c =? 10)%Z) && no_crlf (c :: r) = true) in H.
+  apply andb_true_iff in H. destruct H as [H _]. apply negb_true_iff in H.
+  intros [E1 E2]. subst. discriminate.
+Qed.
+
+Lemma strip_cr_id_head cur : hd 0%Z cur <> 13%Z -> strip_cr (rev cur) = rev cur.
+Proof.
+  intros H. unfold strip_cr. rewrite rev_involutive.
+  destruct cur as [|x cur]; [reflexivity|]. simpl in H.
+  destruct x as [|p|p]; try reflexivity.
+  destruct p as [p|p|]; try reflexivity; destruct p as [p|p|]; try reflexivity;
+    destruct p as [p|p|]; try reflexivity; destruct p as [p|p|]; try reflexivity.
+  congruence.
+Qed.
+
+Lemma split_at_no_crlf : forall bs cur,
+  ~ (hd 0%Z cur = 13%Z /\ hd 0%Z bs = 10%Z) -> no_crlf bs = true ->
+  let (rs, t) := split_at 10%Z bs cur in map strip_cr rs = rs.
+Proof.
+  induction bs as [|b bs IH]; intros cur Hc Hn.
+  - simpl. reflexivity.
+  - simpl. pose proof (no_crlf_tail _ _ Hn) as Hn'.
+    destruct (b =? 10)%Z eqn:Eb.
+    + apply Z.eqb_eq in Eb. subst b.
+      assert (H0 : ~ (hd 0%Z (@nil Z) = 13%Z /\ hd 0%Z bs = 10%Z)) by (simpl; intros [E _]; discriminate).
+      specialize (IH [] H0 Hn').
+      destruct (split_at 10%Z bs []) as [rs t]. simpl. rewrite IH. f_equal.
+      apply strip_cr_id_head. intros E. apply Hc. split; [exact E|reflexivity].
+    + apply IH; [|exact Hn'].
+      simpl. intros [E1 E2]. subst b.
+      destruct bs as [|c bs]; [simpl in E2; discriminate|]. simpl in E2. subst c.
+      exact (no_crlf_head _ _ _ Hn (conj eq_refl eq_refl)).
+Qed.
+
+Lemma records_no_crlf input : no_crlf input = true -> records 10%Z true input = records 10%Z false input.
+Proof.
+  intros H. unfold records.
+  assert (H0 : ~ (hd 0%Z (@nil Z) = 13%Z /\ hd 0%Z input = 10%Z)) by (simpl; intros [E _]; discriminate).
+  pose proof (split_at_no_crlf input [] H0 H) as HS.
+  destruct (split_at 10%Z input []) as [rs t]. rewrite HS. rewrite map_id. reflexivity.
+Qed.
+
+(* partial: without a CR directly before a LF the output lines are the input lines, byte for byte *)
+Theorem shard_lines_bytewise_partial keyhash n input : 0 < n -> no_crlf input = true ->
+  Permutation (concat (shard keyhash n (records 10%Z shard_strip_cr input))) (records 10%Z false input).
+Proof.
+  intros Hn H. change shard_strip_cr with true. rewrite records_no_crlf by exact H.
+  apply shard_partition. exact Hn.
+Qed.
+
+(* refuted in general: "a\r\n" comes out as "a\n" *)
+Theorem shard_lines_bytewise_refuted :
+  exists (keyhash : list Z -> N) n input, 0 < n /\
+    ~ Permutation (concat (shard keyhash n (records 10%Z shard_strip_cr input))) (records 10%Z false input).
+Proof.
+  exists (fun _ => 0), 1, [97; 13; 10]%Z. split; [lia|].
+  vm_compute. intros H. apply Permutation_length_1 in H. discriminate.
+Qed.
